@@ -142,6 +142,18 @@ theorem C05_range (c : Chain) (t : Nat) (bt : Batch) (mb : Int) (q : Query)
   rw [hs1, hs2]
   exact rangeOf_spec (t : Int) (c.best : Int) bt mb (by omega) (by omega)
 
+/-- **Index ↔ header alignment of a prepared query** (any mode, size, boundary):
+every awaited block `b` is mapped to a position `i ≥ 1` of the query's private
+header slice such that `filterHeaders[i]` is the committed header of `b` and
+`filterHeaders[i-1]` the committed header of the block before `b` — so a response
+naming `b` is checked against the headers of `b` and of no other block (a
+genuine filter of another block relabelled as `b` is rejected, `C05_reject`). -/
+theorem C05_index_aligned (c : Chain) (t : Nat) (bt : Batch) (mb : Int) (q : Query)
+    (hne : 1 ≤ c.fhs.length) (hp : prepare c t bt mb = .ok q) :
+    ∀ p ∈ q.index, 1 ≤ p.2 ∧ 1 ≤ p.1 ∧ p.1 < c.fhs.length ∧
+      q.fhdrs.getD p.2 0 = c.fhs.getD p.1 0 ∧ q.fhdrs.getD (p.2 - 1) 0 = c.fhs.getD (p.1 - 1) 0 :=
+  (prepare_ok ⟨id, fun _ _ => 0⟩ c t bt mb q hne hp).1.1
+
 /-- a known block with committed headers always gets a query -/
 theorem C05_range_total (c : Chain) (t : Nat) (bt : Batch) (mb : Int) (h1 : 1 ≤ t) (h2 : t ≤ c.best) :
     ∃ q, prepare c t bt mb = .ok q := by
